@@ -49,19 +49,26 @@ def wholeRef (cs : Charset) (b : Bytes) (oracle : Option Text) : Option Text :=
 
 /-! ## streams -/
 
+/-- the bytes the stream holds when it is read: at construction with `buffer_now`, at iteration otherwise -/
+def dataOf (i : StreamIn) : Bytes := if i.bufferNow then i.data0 else i.data1.getD i.data0
+
+/-- where the stream stands before the seek: files are opened afresh -/
+def posBefore (i : StreamIn) : Nat := if i.isFile then 0 else i.pos0
+
+/-- origin of a seek: start, current position, end -/
+def seekOrigin (i : StreamIn) (wh : Nat) : Int :=
+  if wh = 0 then 0 else if wh = 1 then posBefore i else (dataOf i).length
+
 /-- position the requested seek leads to (`none`: the stream refuses it; no seek: where the stream is) -/
 def startPos (i : StreamIn) : Option Nat :=
-  let p0 : Nat := if i.isFile then 0 else i.pos0
   match i.seekTo with
-  | none => some p0
+  | none => some (posBefore i)
   | some (off, wh) =>
-    let len : Nat := (if i.bufferNow then i.data0 else i.data1.getD i.data0).length
-    let base : Int := if wh = 0 then 0 else if wh = 1 then p0 else len
-    if base + off < 0 then (if i.isFile || wh = 0 then none else some 0) else some (base + off).toNat
+    if seekOrigin i wh + off < 0 then (if i.isFile || wh = 0 then none else some 0)
+    else some (seekOrigin i wh + off).toNat
 
 /-- the bytes the content must deliver -/
-def expected (i : StreamIn) : Option Bytes :=
-  (startPos i).map fun p => (if i.bufferNow then i.data0 else i.data1.getD i.data0).drop p
+def expected (i : StreamIn) : Option Bytes := (startPos i).map fun p => (dataOf i).drop p
 
 def isIO : Ev → Bool
   | .opened | .closed | .seek .. | .read .. => true
